@@ -82,7 +82,8 @@ func Convert(value any, typ reflect.Type) (any, error) { //nolint: gocyclo
 	value = ToLiquid(value)
 	rv := reflect.ValueOf(value)
 	// int.Convert(string) returns "\x01" not "1", so guard against that in the following test
-	if typ.Kind() != reflect.String && value != nil && rv.Type().ConvertibleTo(typ) {
+	if typ.Kind() != reflect.String && value != nil && rv.Type().ConvertibleTo(typ) &&
+		!(typ.Kind() == reflect.Slice && holdsDrop(rv)) {
 		return rv.Convert(typ).Interface(), nil
 	}
 	if typ == timeType && rv.Kind() == reflect.String {
@@ -185,14 +186,15 @@ func Convert(value any, typ reflect.Type) (any, error) { //nolint: gocyclo
 		if ms, ok := value.(yaml.MapSlice); ok {
 			result := reflect.MakeSlice(typ, 0, rv.Len())
 			for _, item := range ms {
-				if item.Value == nil {
+				iv := ToLiquid(item.Value)
+				if iv == nil {
 					if et.Kind() >= reflect.Array {
 						ev := reflect.Zero(et)
 						result = reflect.Append(result, ev.Convert(et))
 					}
 					continue
 				}
-				ev := reflect.ValueOf(item.Value)
+				ev := reflect.ValueOf(iv)
 				if et.Kind() == reflect.String {
 					ev = reflect.ValueOf(fmt.Sprint(ev))
 				}
@@ -241,6 +243,21 @@ func Convert(value any, typ reflect.Type) (any, error) { //nolint: gocyclo
 		}
 	}
 	return nil, conversionError("", value, typ)
+}
+
+// holdsDrop reports whether rv is a slice of interface values, such as a []any, with an
+// element that is a drop. Such a slice is converted element by element, like a typed slice,
+// so that a filter sees the elements' Liquid values.
+func holdsDrop(rv reflect.Value) bool {
+	if rv.Kind() != reflect.Slice || rv.Type().Elem().Kind() != reflect.Interface {
+		return false
+	}
+	for i := range rv.Len() {
+		if _, ok := rv.Index(i).Interface().(drop); ok {
+			return true
+		}
+	}
+	return false
 }
 
 // convertElement converts an element of an array, slice or map that Convert turns into a slice.
